@@ -48,6 +48,10 @@ def _prepare_shared():
     outlives the evaluation that created it + a host function declared with an AnyOf type"""
     base = yaql.create_context()
     base['cfg'] = 7
+    # plain mutable host values, put there as they are (context variables are not converted)
+    base['defaults'] = {'token': 's3cr3t', 'n': 1}
+    base['path'] = [1, 2]
+    base['tags'] = {1, 2}
 
     @specs.parameter('x', yaqltypes.AnyOf(yaqltypes.String(), yaqltypes.Integer()))
     def anyof(x):
@@ -129,10 +133,13 @@ POOL_SRC = [
     '$.b.select(twice($))',
     'anyof($.a) + anyof($.a) + len(anyof($.s))',
     '$.b.aggregate($1 + $2, 0) / 2',
+    '$defaults.delete(token).len() + $defaults.set(k, $.a).len()',
+    '$path.insert(0, $.a).len() + $path.delete(0).len() + ($path + [$.a]).len()',
+    '$tags.add($.a).len() + $tags.remove(1).len()',
 ]
 STMTS = [ENG(t) for t in POOL_SRC]
 NP = len(STMTS)
-HEAVY = set(i for i, t in enumerate(POOL_SRC) if any(w in t for w in ('groupBy', 'dict(', 'join(', 'toDict', 'distinct', 'indexOf', 'str(', 'float(', '.any(', 'in $.b')))
+HEAVY = set(i for i, t in enumerate(POOL_SRC) if any(w in t for w in ('groupBy', 'dict(', 'join(', 'toDict', 'distinct', 'indexOf', 'str(', 'float(', '.any(', 'in $.b', '$tags')))
 SBOX = [(i,) for i in range(NP)]
 
 
@@ -333,6 +340,9 @@ if not H.P('driver'):
     install_traps()
 
 
+_SHADOW = {}
+
+
 def guarantee(s: int, a: int) -> bool:
     """
     pre: H.P('slo', 0) <= s < min(NP, H.P('shi', NP))
@@ -341,6 +351,13 @@ def guarantee(s: int, a: int) -> bool:
     post: _
     """
     si = SBOX[s][0]
+    if si not in _SHADOW:
+        # once per process and statement, outside the tracer (which executes `|=` / `-=` on a real set as a rebinding, so
+        # an in-place update of a shared set through them would go unnoticed in the symbolic run)
+        with H.NoTracing():
+            _SHADOW[si] = not evaluate_watched(si, make_doc(1, 2, 'ab'), bare=bool(H.P('bare')))[1]
+    if not _SHADOW[si]:
+        return H.done(False)
     out, anomalies, n = evaluate_watched(si, make_doc(a, 2, 'ab'), bare=bool(H.P('bare')))
     H.note('dispatch_points', n)
     return H.done(not anomalies)
@@ -397,6 +414,43 @@ def eval_cache_shared(s: int, ai: int) -> bool:
     return H.done(ok)
 
 
+STMT_OPTIONS = [({},), ({'yaql.limitIterators': 2},), ({'yaql.convertTuplesToLists': False},), ({'yaql.limitIterators': 100},)]
+_OPT_ENGINES = {}
+
+
+def options_shared(s: int, o1: int, o2: int, how: int) -> bool:
+    """
+    pre: H.P('slo', 0) <= s < min(NP, H.P('shi', NP)) and 0 <= o1 < len(STMT_OPTIONS) and 0 <= o2 < len(STMT_OPTIONS)
+    pre: 0 <= how < 2
+    post: _
+    """
+    # several evaluations of one expression text share one engine but come with their own per-statement options
+    # (engine(text, options) / engine.copy(options)(text)): each one runs under the options it asked for, whatever
+    # the others asked for before (reference: an engine created by the factory with exactly those options)
+    si, a1, a2, hw = SBOX[s][0], SBOX[o1][0], SBOX[o2][0], SBOX[how][0]
+    with H.NoTracing():
+        text, doc = POOL_SRC[si], make_doc(1, 2, 'ab')
+
+        def run(eng_call):
+            try:
+                st = eng_call()
+                return ('ok', st.evaluate(data=doc, context=SHARED.create_child_context())), dict(st.engine.options)
+            except Exception as e:
+                return ('err', type(e).__name__), None
+        ok = True
+        for oi in (a1, a2, a1):
+            opts = STMT_OPTIONS[oi][0]
+            if oi not in _OPT_ENGINES:
+                _OPT_ENGINES[oi] = yaql.YaqlFactory().create(options=dict(opts))
+            want, _ = run(lambda: _OPT_ENGINES[oi](text))
+            if hw == 0:
+                got, eff = run(lambda: ENG(text, options=dict(opts)))
+            else:
+                got, eff = run(lambda: ENG.copy(dict(opts))(text))
+            ok = ok and got == want and (eff is None or all(eff.get(k) == v for k, v in opts.items()))
+    return H.done(ok)
+
+
 def conditions(tier, seed):
     out = []
     step = 3 if tier == 'quick' else 2
@@ -417,6 +471,13 @@ def conditions(tier, seed):
                     'param': {'slo': lo, 'shi': lo + 4, 'bare': True},
                     'bounds': 'as guarantee, in children of a shared context chain that has no #finalize function (hand-assembled '
                               'host context)'})
+    for lo in range(0, NP, 16):
+        out.append({'name': 'options_shared[stmts=%d-%d]' % (lo, min(NP, lo + 16) - 1), 'func': 'options_shared', 'timeout': t,
+                    'param': {'slo': lo, 'shi': lo + 16},
+                    'bounds': 'one engine, one expression text, evaluations with their own per-statement options (none, '
+                              'limitIterators 2 / 100, convertTuplesToLists off) in the order o1, o2, o1 through engine(text, options) '
+                              'and engine.copy(options)(text) vs an engine created with those options (selectors; each path one '
+                              'concrete history)'})
     out.append({'name': 'eval_cache_shared', 'func': 'eval_cache_shared', 'timeout': t,
                 'bounds': 'yaql.eval vs direct evaluation for every pool statement x 3 documents (selectors; each path one '
                           'concrete history of the module-level caches); default context stays empty'})
@@ -506,6 +567,13 @@ def threaded_differs(si, doc, via_eval=False):
 
 def replay(cond, args):
     f = cond['func']
+    if f == 'options_shared':
+        ok = options_shared(**args)
+        return {'reproduced': not ok, 'key': 'C18/options-shared',
+                'what': 'evaluations of %r on one engine with per-statement options %r, %r, %r (%s): one of them does not run '
+                        'under the options it was given' % (POOL_SRC[args['s']], STMT_OPTIONS[args['o1']][0],
+                                                            STMT_OPTIONS[args['o2']][0], STMT_OPTIONS[args['o1']][0],
+                                                            'engine(text, options)' if args['how'] == 0 else 'engine.copy(options)(text)')}
     if f == 'eval_cache_shared':
         ok = eval_cache_shared(**args)
         return {'reproduced': not ok, 'key': 'C18/eval-cache', 'what': 'yaql.eval(%r) differs from direct evaluation or leaves data in the default context' % POOL_SRC[args['s']]}
